@@ -90,16 +90,45 @@ def qlit(value):
 
 
 class FnTranslator:
-    def __init__(self, fn, kinds, known_fns, table_name):
+    def __init__(self, fn, kinds, known_fns, table_name, defs=None, prefix="", stack=()):
         self.fn, self.kinds, self.known = fn, dict(kinds), known_fns
         self.env = {}           # python name -> (coq name, kind)
         self.extra_params = []  # params introduced for opaque sub-expressions
         self.counter = 0
         self.table_name = table_name
+        self.defs = defs or {}  # module-level functions of the same file (helpers are inlined)
+        self.prefix = prefix
+        self.stack = stack + (fn.name,)
 
     def fresh(self, base):
         self.counter += 1
-        return "%s_%d" % (base, self.counter)
+        return "%s%s_%d" % (self.prefix, base, self.counter)
+
+    def inline_helper(self, name, arg_exprs):
+        """a call to another module-level function of the same file that is not itself a translated entry point
+        (a private helper introduced by a refactoring) is inlined:  (let p1 := a1 in ... <helper body> ret)"""
+        fn = self.defs[name]
+        if name in self.stack:
+            raise Untranslatable("recursive helper " + name)
+        a = fn.args
+        if a.vararg or a.kwarg or a.kwonlyargs or a.posonlyargs or a.defaults:
+            raise Untranslatable("signature of helper " + name)
+        names = [x.arg for x in a.args]
+        if len(names) != len(arg_exprs):
+            raise Untranslatable("call to helper %s with %d args" % (name, len(arg_exprs)))
+        pre = self.fresh("h_" + name.strip("_")) + "_"
+        child = FnTranslator(fn, {n: k for n, (c, k) in zip(names, arg_exprs)}, self.known, self.table_name, self.defs, pre, self.stack)
+        lines = []
+        for n, (c, k) in zip(names, arg_exprs):
+            if k == "skip":
+                continue
+            if k not in ("S", "V", "P"):
+                raise Untranslatable("helper argument kind " + k)
+            cn = child.fresh(n)
+            lines.append("let %s := %s in" % (cn, c))
+            child.env[n] = (cn, k)
+        blines, ret = child.body()
+        return ("(%s %s)" % (" ".join(lines + blines), ret[0]), ret[1])
 
     # ---- expressions -------------------------------------------------------------------
     def lift2(self, op, a, b):
@@ -166,6 +195,13 @@ class FnTranslator:
                     and sl.elts[1].value in (0, 1)):
                 return ("(%s %s)" % (("fst", "snd")[sl.elts[1].value], self.env[e.value.id][0]), "S")
             raise Untranslatable("subscript of pair")
+        # band = FLUX_DICTIONARY[waveband]  (the whole entry, bound to a local) ... and band[k] later
+        if (isinstance(e.value, ast.Name) and e.value.id == self.table_name and isinstance(e.slice, ast.Name)
+                and self.env.get(e.slice.id, (None, None))[1] == "E"):
+            return (self.env[e.slice.id][0], "E")
+        if (isinstance(e.value, ast.Name) and e.value.id in self.env and self.env[e.value.id][1] == "E"
+                and isinstance(e.slice, ast.Constant) and e.slice.value in (0, 1, 2)):
+            return ("(ent%d %s)" % (e.slice.value, self.env[e.value.id][0]), "S")
         # FLUX_DICTIONARY[waveband][k]
         if (isinstance(e.value, ast.Subscript) and isinstance(e.value.value, ast.Name)
                 and e.value.value.id == self.table_name and isinstance(e.value.slice, ast.Name)
@@ -226,6 +262,14 @@ class FnTranslator:
             if e.args:
                 raise Untranslatable(".mean with argument")
             return ("(nmean O %s)" % c, "S")
+        if name is not None and name in self.defs and name not in self.known and name.startswith("_"):
+            args = []
+            for a in e.args:
+                if isinstance(a, ast.Name) and self.kinds.get(a.id) == "skip":
+                    args.append((None, "skip"))       # e.g. the `axis` parameter handed through
+                else:
+                    args.append(self.expr(a))
+            return self.inline_helper(name, args)
         raise Untranslatable("call " + ast.dump(e)[:100])
 
     # ---- statements -------------------------------------------------------------------
@@ -251,6 +295,16 @@ class FnTranslator:
                 continue
             self.env[n] = (n, k)
             params.append((n, tyof[k]))
+        lines, ret = self.body()
+        rty = {"S": "T", "V": "list T"}[ret[1]]
+        ps = " ".join("(%s : %s)" % p for p in params)
+        out = "Definition %s {T : Type} (O : NumOps T) %s : %s :=\n  %s\n  %s.\n" % (
+            fn.name, ps, rty, "\n  ".join(lines), ret[0])
+        return out, [p[0] for p in params]
+
+    def body(self):
+        """the statements of the function as a chain of let-bindings and the returned expression"""
+        fn = self.fn
         lines = []
         ret = None
         body = fn.body
@@ -291,11 +345,7 @@ class FnTranslator:
             raise Untranslatable("statement %s in %s" % (type(st).__name__, fn.name))
         if ret is None:
             raise Untranslatable("no return in " + fn.name)
-        rty = {"S": "T", "V": "list T"}[ret[1]]
-        ps = " ".join("(%s : %s)" % p for p in params)
-        out = "Definition %s {T : Type} (O : NumOps T) %s : %s :=\n  %s\n  %s.\n" % (
-            fn.name, ps, rty, "\n  ".join(lines), ret[0])
-        return out, [p[0] for p in params]
+        return lines, ret
 
 
 def translate_table(node, name):
@@ -342,7 +392,7 @@ def translate_module(repo, modname, relpath, fns):
             if order is None:
                 raise Untranslatable("parameters of %s changed" % name)
             try:
-                code, params = FnTranslator(fn, kinds, known, table_name).translate()
+                code, params = FnTranslator(fn, kinds, known, table_name, defs).translate()
             except Untranslatable as ex:
                 if str(ex).startswith("call ") or "free name" in str(ex):
                     continue      # maybe a sibling not yet translated
@@ -355,7 +405,7 @@ def translate_module(repo, modname, relpath, fns):
     if pending:
         # re-raise the real error of the first pending function
         name, kinds = pending[0]
-        FnTranslator(defs[name], kinds, known, table_name).translate()
+        FnTranslator(defs[name], kinds, known, table_name, defs).translate()
         raise Untranslatable("could not order " + name)
     out.append('Definition source_digest : string := "%s"%%string.' % hashlib.sha256(src).hexdigest())
     return "\n".join(out) + "\n", sigs
